@@ -173,7 +173,9 @@ def oracle_c09(tier, seed):
         from naunet.network import Network as _Net3
         from .native_ode import strip_comments
         for lab3, rs3 in [("neutral", [(["C", "O"], ["CO"]), (["CO", "H"], ["HCO"])]), ("ionised", [(["C+", "e-"], ["C"]), (["CO", "H+"], ["HCO+"])]),
-                          ("ice-only", [(["#CO"], ["CO"]), (["H", "H"], ["H2"])])]:
+                          ("ice-only", [(["#CO"], ["CO"]), (["H", "H"], ["H2"])]),
+                          ("electron-spelled-E", [(["C+", "E"], ["C"]), (["H+", "E"], ["H"]), (["H", "H"], ["H2"])]),
+                          ("electron-spelled-E-minus", [(["C+", "E-"], ["C"]), (["H", "H"], ["H2"])])]:
             fresh_species_state()
             net = _Net3([mk_reaction(a, b) for a, b in rs3])
             d = tempfile.mkdtemp(prefix="vf_enzo3_")
@@ -321,6 +323,10 @@ def oracle_c08(tier, seed):
          {"HE": "He", "SI": "Si", "CL": "Cl", "MG": "Mg", "NA": "Na", "FE": "Fe", "E": "e"}, {"surface_prefix": "#"}),
         ("uppercase-G", ["H", "HE", "C", "N", "O", "SI", "S", "CL", "MG", "NA", "FE", "E"], ["CRP", "PHOTON", "o", "p"],
          {"HE": "He", "SI": "Si", "CL": "Cl", "MG": "Mg", "NA": "Na", "FE": "Fe", "E": "e"}, {"surface_prefix": "G"}),
+        # a replacement table that renames only some of the symbols (the bundled cloud example's table plus NE, FE, NA left as they are):
+        # a symbol without replacement keeps its spelling even when it contains the text of a replaced one (NE / FE contain E)
+        ("uppercase-partial-replacement", ["H", "HE", "C", "N", "O", "NE", "FE", "SI", "MG", "CL", "NA", "E"], ["CRP", "PHOTON"],
+         {"E": "e", "HE": "He", "MG": "Mg", "SI": "Si", "CL": "Cl"}, {"surface_prefix": "#"}),
         # a user element list with NO pseudo elements / labels: nothing but the listed symbols may be accepted
         ("uppercase-no-labels", ["H", "HE", "C", "N", "O", "SI", "S", "CL", "MG", "NA", "FE", "E"], [], {}, {"surface_prefix": "#"}),
         # history: two default labels are promoted to elements with add_known_elements (they must then be counted, not ignored)
@@ -340,7 +346,7 @@ def oracle_c08(tier, seed):
             Species.set_known_pseudoelements(list(pseudo))
             Species._replacement = dict(repl)
             symbols = [e for e in elements if e != "E"]
-            labels = ["", "o", "p"] if pseudo else [""]
+            labels = [""] + [l for l in ("o", "p") if l in pseudo]
         elif cname != "promoted-labels":
             symbols = [e for e in Species.default_elements if e not in ("e", "E")]
             labels = ["", "c-", "o", "p", "m", "l-"]       # the cyclic / linear labels contain a hyphen that is not a charge
@@ -453,7 +459,7 @@ def oracle_c08(tier, seed):
             except Exception as e:
                 viol.append({"property": "C08", "config": cname, "name": "", "what": f"patch-history-raises: {type(e).__name__}: {e}", "signature": f"C08:{cname}:patch-history-raises"})
         # names with a foreign character must be rejected
-        for bad in ["H2Q", "C?O", "xH2", "H2O!", "C.O", "H 2", "H2 O", "C1_2", "C+2H", "H2\tO", "C 12", "O_2"] + (["Mg", "oH2", "pH3+", "HgO", "H2M", "CXO"] if (elements is not None and not pseudo) else []):
+        for bad in ["H2Q", "C?O", "xH2", "H2O!", "C.O", "H 2", "H2 O", "C1_2", "C+2H", "H2\tO", "C 12", "O_2", "2H2", "13CO", "13", "18OH", "1H", "0C", "7#CO"] + (["Mg", "oH2", "pH3+", "HgO", "H2M", "CXO"] if (elements is not None and not pseudo) else []):
             cases += 1
             try:
                 Species(bad, **kw)
